@@ -351,10 +351,13 @@ class Ctx:
             shutil.rmtree(self._workdir, ignore_errors=True)
 
     # ---- record a violation (after shrinking)
-    def record_violation(self):
+    def record_violation(self, flaky: bool = False):
         lf = self.last_fail or {'signature': f'{self.pid}:unknown', 'detail': '', 'case': None}
-        if self.shrink_expired() and self.best_fail is not None:
+        if (flaky or self.shrink_expired()) and self.best_fail is not None:
             lf = self.best_fail['rec']
+        if flaky:
+            lf = dict(lf, detail='[observed once, not reproduced when the same input was executed again: the result '
+                                 'depends on earlier calls in the process] ' + lf['detail'])
         sig = lf['signature']
         self.session_seen.add(sig)
         rdir = OUT / 'replays' / self.pid
@@ -510,8 +513,10 @@ def run_given(ctx: Ctx, strategy, body, max_examples: int, salt: int = 0, shrink
         except BaseException as e:  # unexpected exception escaping the body
             if isinstance(e, (KeyboardInterrupt, SystemExit)):
                 raise
-            if ctx.shrink_expired() and ctx.best_fail is not None and _is_flaky(e):
-                ctx.record_violation()
+            if ctx.best_fail is not None and _is_flaky(e):
+                # the oracle saw a violation on the real code, but re-executing the same input did not reproduce it:
+                # the outcome depends on what ran before in this process (state leaking between calls)
+                ctx.record_violation(flaky=True)
                 continue
             if ctx.violations and type(e).__name__ == 'Unsatisfiable':
                 return  # every further case hits an already reported cause
@@ -556,8 +561,10 @@ def run_machine(ctx: Ctx, machine_cls, max_examples: int, steps: int, salt: int 
         except BaseException as e:
             if isinstance(e, (KeyboardInterrupt, SystemExit)):
                 raise
-            if ctx.shrink_expired() and ctx.best_fail is not None and _is_flaky(e):
-                ctx.record_violation()
+            if ctx.best_fail is not None and _is_flaky(e):
+                # the oracle saw a violation on the real code, but re-executing the same input did not reproduce it:
+                # the outcome depends on what ran before in this process (state leaking between calls)
+                ctx.record_violation(flaky=True)
                 continue
             if ctx.violations and type(e).__name__ == 'Unsatisfiable':
                 return  # every further case hits an already reported cause
